@@ -33,6 +33,7 @@ func init() {
 	streams["cache_single"] = func(r *Run) { streamCache(r, "single") }
 	streams["cache_collide"] = func(r *Run) { streamCache(r, "collide") }
 	streams["cache_evict"] = func(r *Run) { streamCache(r, "evict") }
+	streams["cache_script"] = func(r *Run) { streamCache(r, "script") }
 }
 
 const hookStart = 100 // pseudo yield point: a client call is about to start
@@ -62,7 +63,7 @@ type callRec struct {
 	endSeq   int
 	startT   time.Time
 	endT     time.Time
-	updSeq   int // set: seq at which store.Update had certainly been executed (first yield point after it)
+	updSeq   int  // set: seq at which store.Update had certainly been executed (first yield point after it)
 	updated  bool // set: took the overwrite path (store.Update succeeded)
 	iterSeen []uint64
 	ok       bool
@@ -81,19 +82,19 @@ type sched struct {
 	seq     int
 	r       *Run
 	// oracle bookkeeping
-	exitBy    map[uint64]*callRec // value -> the client call whose goroutine ran its OnExit (nil: applier)
-	exitSeq   map[uint64]int // value -> seq of first OnExit
-	exitCnt   map[uint64]int
-	evictCnt  map[uint64]int
-	rejectCnt map[uint64]int
-	sweepEv   []sweepEvict
+	exitBy     map[uint64]*callRec // value -> the client call whose goroutine ran its OnExit (nil: applier)
+	exitSeq    map[uint64]int      // value -> seq of first OnExit
+	exitCnt    map[uint64]int
+	evictCnt   map[uint64]int
+	rejectCnt  map[uint64]int
+	sweepEv    []sweepEvict
 	sw51, sw52 int
 	addVictims int                  // victims chosen by the policy.Add in progress
 	addAdmit   bool                 // ... and whether it admitted
 	appKey     uint64               // hash of the item the applier is processing
 	applyT     map[uint64]time.Time // hash -> virtual time of the latest store.Set of a new item
-	inSweep   bool
-	failed    bool
+	inSweep    bool
+	failed     bool
 }
 
 type sweepEvict struct {
@@ -252,11 +253,13 @@ func (s *sched) release(g *gor) {
 }
 
 type cacheCfg struct {
-	bufCap, maxCost                    int64
+	bufCap, maxCost                     int64
 	metrics, ignoreInternal, costFn, su bool
-	bufferItems                        int64
-	mode                               string
-	nKeys                              int
+	bufferItems                         int64
+	mode                                string
+	nKeys                               int
+	script                              string // scripted scenario (mode "script")
+	seqRoom                             bool   // sequential client calls with room to spare: the C06 reference oracle applies
 }
 
 // keyIDs: the primary hashes of the keys 1..8; 24, 49 and 74 are ≡ 24 (mod 25), the last of the
@@ -276,7 +279,7 @@ func keyHash(mode string, k uint64) (uint64, uint64) {
 	}
 }
 
-func costOf(v uint64) int64         { return int64(v%5) + 1 }
+func costOf(v uint64) int64           { return int64(v%5) + 1 }
 func shouldUpd(cur, prev uint64) bool { return cur%4 != 0 }
 
 func streamCache(r *Run, mode string) {
@@ -305,6 +308,19 @@ func runCacheCase(r *Run, mode string, seed int64, sample bool) {
 		nClients = 1
 		cfg.maxCost = 100000
 		cfg.su = false
+	}
+	if mode == "script" {
+		if nClients < 2 {
+			nClients = 2
+		}
+		cfg.metrics = rng.Intn(8) != 0
+		cfg.nKeys = 2 + rng.Intn(6)
+		cfg.script = scriptNames[rng.Intn(len(scriptNames))]
+		if scriptSequential[cfg.script] && rng.Intn(2) == 0 {
+			cfg.seqRoom = true
+			cfg.maxCost = 100000
+			cfg.su = false
+		}
 	}
 	if mode == "evict" {
 		// small capacity, every Get reaches the frequency sketch, hot and cold keys: admissions
@@ -415,6 +431,13 @@ func cacheCaseBody(r *Run, rng *rand.Rand, cfg cacheCfg, nClients int, sample bo
 	if longStall {
 		ttls = append(ttls, 2000*time.Second, 1500*time.Second, 3600*time.Second)
 	}
+	// forced, when non-nil, fixes key / cost / ttl of the next call (scripted scenarios)
+	type forcedArgs struct {
+		key  uint64
+		cost int64
+		ttl  time.Duration
+	}
+	var forced *forcedArgs
 	startCall := func(ci int, kind string) {
 		g := &gor{name: fmt.Sprintf("c%d", ci), park: make(chan struct{}), busy: true}
 		s.clients[ci] = g
@@ -423,6 +446,9 @@ func cacheCaseBody(r *Run, rng *rand.Rand, cfg cacheCfg, nClients int, sample bo
 		k := uint64(1 + rng.Intn(cfg.nKeys))
 		if cfg.mode == "evict" && kind == "get" && rng.Intn(4) != 0 {
 			k = uint64(1 + rng.Intn(2)) // hot keys
+		}
+		if forced != nil {
+			k = forced.key
 		}
 		h, cf := keyHash(cfg.mode, k)
 		rec.key = k
@@ -453,6 +479,9 @@ func cacheCaseBody(r *Run, rng *rand.Rand, cfg cacheCfg, nClients int, sample bo
 				if rng.Intn(4) != 0 {
 					rec.ttl = 0
 				}
+			}
+			if forced != nil {
+				rec.cost, rec.ttl = forced.cost, forced.ttl
 			}
 			emit("spawn %s set %d %d %d %d %d", g.name, h, cf, rec.val, rec.cost, int64(rec.ttl))
 		case "get", "getttl", "del":
@@ -643,7 +672,99 @@ func cacheCaseBody(r *Run, rng *rand.Rand, cfg cacheCfg, nClients int, sample bo
 		nCalls = 40 + rng.Intn(60)
 	}
 	issued := 0
-	for steps := 0; steps < 4000; steps++ {
+	if cfg.mode == "script" {
+		// ---- scripted scenarios (see cacheScript): directed call sequences and schedules around
+		// the cores of the properties, with swept parameters; every oracle and the trace
+		// validator apply to them exactly as to the random schedules.
+		sc := &scriptCtx{rng: rng, cfg: cfg, nClients: nClients}
+		sc.call = func(ci int, kind string, key uint64, cost int64, ttl time.Duration) {
+			forced = &forcedArgs{key, cost, ttl}
+			if kind == "clear" {
+				clearSeen = true
+			}
+			startCall(ci, kind)
+			forced = nil
+			issued++
+		}
+		sc.busy = func(ci int) bool {
+			s.mu.Lock()
+			defer s.mu.Unlock()
+			return s.clients[ci].busy
+		}
+		sc.stepClient = func(ci int) bool {
+			for _, g := range parked() {
+				if g == s.clients[ci] {
+					s.release(g)
+					return true
+				}
+			}
+			return false
+		}
+		sc.stepOther = func() bool { // the applier, else the policy goroutine
+			ps := parked()
+			for _, g := range ps {
+				if g == s.app {
+					s.release(g)
+					return true
+				}
+			}
+			for _, g := range ps {
+				if g == s.pol {
+					s.release(g)
+					return true
+				}
+			}
+			return false
+		}
+		sc.appAt = func() int {
+			s.mu.Lock()
+			defer s.mu.Unlock()
+			if s.app == nil {
+				return 0
+			}
+			return s.app.at
+		}
+		sc.tick = func(d time.Duration) {
+			time.Sleep(d)
+			synctest.Wait()
+			emit("tick %d", int64(d))
+			s.flush(nil)
+			r.Count("tick")
+		}
+		sc.snapshot = func() {
+			if len(parked()) == 0 && !anyBusy() {
+				snapshot()
+			}
+		}
+		sc.count = func(n string) { r.Count(n) }
+		sc.checkFresh = func() {
+			// C15: after an un-overlapped Clear has returned the cache is empty, its capacity and
+			// its metrics are reset
+			if len(parked()) != 0 || anyBusy() {
+				return
+			}
+			sn := cache.VerifSnapshot()
+			in := strings.Join(sampleLines, " | ")
+			if len(sn.Store) != 0 || len(sn.KeyCosts) != 0 || sn.Used != 0 {
+				r.Fail("C15", fmt.Sprintf("after Clear returned: %d stored entries, %d accounted keys, used=%d", len(sn.Store), len(sn.KeyCosts), sn.Used), in)
+			}
+			if cache.RemainingCost() != sn.MaxCost {
+				r.Fail("C15", fmt.Sprintf("after Clear returned: RemainingCost()=%d, MaxCost=%d", cache.RemainingCost(), sn.MaxCost), in)
+			}
+			if m := cache.Metrics; m != nil {
+				tot := m.Hits() + m.Misses() + m.KeysAdded() + m.KeysUpdated() + m.KeysEvicted() + m.CostAdded() + m.CostEvicted() +
+					m.SetsDropped() + m.SetsRejected() + m.GetsDropped() + m.GetsKept()
+				if tot != 0 {
+					r.Fail("C15", fmt.Sprintf("after Clear returned the metrics are not reset: hits=%d misses=%d keysAdded=%d keysUpdated=%d keysEvicted=%d costAdded=%d costEvicted=%d setsDropped=%d setsRejected=%d getsDropped=%d getsKept=%d",
+						m.Hits(), m.Misses(), m.KeysAdded(), m.KeysUpdated(), m.KeysEvicted(), m.CostAdded(), m.CostEvicted(), m.SetsDropped(), m.SetsRejected(), m.GetsDropped(), m.GetsKept()), in)
+				}
+			}
+			r.Count("c15_fresh_checked")
+		}
+		cacheScript(sc)
+		r.Count("script_" + sc.name)
+	}
+	for steps := 0; steps < 4000 && cfg.mode != "script"; steps++ {
 		ps := parked()
 		var idle []int
 		for i, g := range s.clients {
@@ -798,17 +919,48 @@ func oracleQuiescent(r *Run, s *sched, cfg cacheCfg, cache *ristretto.Cache[uint
 		r.Fail("C14", fmt.Sprintf("key %d (value %d) expired at %s, its expiry bucket (<= %d) has been swept (lastCleaned=%d) but the entry is still resident and charged",
 			e.Key, e.Value, e.Expiration.UTC().Format("15:04:05.000"), b, sn.LastCleaned), in)
 	}
-	// C17: conservation laws (no Clear in this history)
-	if m := cache.Metrics; m != nil && !clearSeen {
+	// C17: conservation laws, counted since creation or since the last Clear — the latter only
+	// when that Clear overlapped no other call (otherwise "since the Clear" is not defined call by call)
+	sinceSeq := 0
+	lawsApply := !clearSeen
+	if clearSeen {
+		var last *callRec
+		for _, c := range calls {
+			if c.kind == "clear" && c.endSeq != 0 {
+				last = c
+			}
+		}
+		if last != nil {
+			lawsApply = true
+			for _, c := range calls {
+				if c != last && c.startSeq != 0 && c.startSeq < last.endSeq && (c.endSeq == 0 || c.endSeq > last.startSeq) {
+					lawsApply = false
+				}
+			}
+			for _, c := range calls { // two Clears: only the last one counts, and it must be the last
+				if c.kind == "clear" && c != last && c.endSeq > last.startSeq {
+					lawsApply = false
+				}
+			}
+			sinceSeq = last.endSeq
+		}
+	}
+	if m := cache.Metrics; m != nil && lawsApply {
 		ngets := 0
 		drops := 0
 		for _, c := range calls {
+			if c.startSeq < sinceSeq {
+				continue
+			}
 			if c.kind == "get" && c.endSeq != 0 {
 				ngets++
 			}
 			if c.kind == "set" && c.endSeq != 0 && !c.ok && c.ttl >= 0 {
 				drops++
 			}
+		}
+		if clearSeen {
+			r.Count("c17_after_clear_checked")
 		}
 		if int(m.Hits()+m.Misses()) != ngets {
 			r.Fail("C17", fmt.Sprintf("Hits+Misses=%d, Get calls=%d", m.Hits()+m.Misses(), ngets), in)
@@ -826,8 +978,17 @@ func oracleQuiescent(r *Run, s *sched, cfg cacheCfg, cache *ristretto.Cache[uint
 		if int(m.SetsDropped()) != drops {
 			r.Fail("C17", fmt.Sprintf("SetsDropped=%d, refused new sets=%d", m.SetsDropped(), drops), in)
 		}
-		if int(m.GetsKept()+m.GetsDropped()) > ngets {
-			r.Fail("C17", fmt.Sprintf("GetsKept+GetsDropped=%d > Gets=%d", m.GetsKept()+m.GetsDropped(), ngets), in)
+		// Clear resets the metrics but not the ring stripes: keys pushed by Gets before the Clear are
+		// credited to GetsKept/GetsDropped when their stripe fills afterwards.  The clause (and the
+		// theorem c17_gets_kept) therefore counts the Gets since creation.
+		ngetsAll := 0
+		for _, c := range calls {
+			if c.kind == "get" && c.endSeq != 0 {
+				ngetsAll++
+			}
+		}
+		if int(m.GetsKept()+m.GetsDropped()) > ngetsAll {
+			r.Fail("C17", fmt.Sprintf("GetsKept+GetsDropped=%d > Gets=%d", m.GetsKept()+m.GetsDropped(), ngetsAll), in)
 		}
 	}
 }
@@ -901,7 +1062,7 @@ func oracleFinal(r *Run, s *sched, cfg cacheCfg, cache *ristretto.Cache[uint64, 
 			}
 		}
 	}
-	if cfg.mode == "single" {
+	if cfg.mode == "single" || cfg.seqRoom {
 		oracleSingle(r, calls, in)
 	}
 	// C04: callback discipline, checked after Close has returned
@@ -1098,7 +1259,6 @@ func streamCacheF8(r *Run) {
 	}
 }
 
-
 // oracleSingle (C06): single-client histories with room to spare, replayed sequentially
 // against a three-valued reference (surely absent / surely present with value and expiry /
 // unknown while writes are pending).  Checks: Set of a key that is neither resident nor
@@ -1111,6 +1271,9 @@ func oracleSingle(r *Run, calls []*callRec, in string) {
 		ttl          bool
 		expLo, expHi time.Time // the expiration instant lies in [expLo, expHi] (clock read inside the Set)
 		delWait      bool      // a Del ran while writes were pending: absent after the next Wait
+		expUnk       bool      // kind 2 only because the TTL may have elapsed (nothing pending): the entry is
+		//                        either still in the map (unswept) or gone; a Set takes the in-place or the
+		//                        new-item path and is, either way, present after the next Wait (kind 4)
 	}
 	state := map[uint64]*st{}
 	get := func(k uint64) *st {
@@ -1145,21 +1308,25 @@ func oracleSingle(r *Run, calls []*callRec, in string) {
 				x.val = c.val // overwrite of a resident key: immediate
 			case x.kind == 0:
 				x.kind, x.val = 3, c.val
+			case x.kind == 2 && x.expUnk:
+				x.kind, x.val = 4, c.val // expired, swept or not: present after the next Wait
 			default:
 				x.kind = 2
 			}
+			x.expUnk = false
 			x.ttl = c.ttl > 0
 			x.expLo, x.expHi = c.startT.Add(c.ttl), c.endT.Add(c.ttl)
 		case "del":
-			if x.kind == 0 || x.kind == 1 {
+			if x.kind == 0 || x.kind == 1 || (x.kind == 2 && x.expUnk) {
 				x.kind = 0
+				x.expUnk = false
 			} else {
 				x.kind = 2
 				x.delWait = true
 			}
 		case "wait":
 			for _, y := range state {
-				if y.kind == 3 {
+				if y.kind == 3 || y.kind == 4 {
 					y.kind = 1
 				}
 				if y.delWait {
@@ -1184,6 +1351,7 @@ func oracleSingle(r *Run, calls []*callRec, in string) {
 		}
 		if x.kind == 1 && x.ttl && !c.endT.Before(x.expLo) {
 			x.kind = 2 // possibly expired: still in the map until swept; a later Set may hit either path
+			x.expUnk = true
 		}
 	}
 }
